@@ -46,6 +46,12 @@ class D(Driver):
                 cl, cr = e[0]._changed, e[1]._changed
                 if (cl and cl <= now - age) or (cr and cr <= now - age) or e._priority < 0:
                     elig.append(e)
+            # a negative ("immediately") priority must come from the application's prioritize() for a path the entry has now
+            for e in st._changeset_storage:
+                if e._priority < 0:
+                    paths = [e[sd]._path for sd in (0, 1) if e[sd]._path]
+                    if paths and not any(w.prioritize(sd, pth) < 0 for sd in (0, 1) for pth in [e[sd]._path] if pth):
+                        w.pick_errors.append(("urgent-without-cause", (tuple(_leaf(x) for x in paths), e._priority)))
             if ret is None:
                 if elig:
                     w.pick_errors.append(("eligible-not-picked", [(_leaf(e[0]._path), e._priority) for e in elig]))
@@ -112,6 +118,7 @@ SCRIPTS = {
     "w3": [["write", "x", "X1"], ["write", "y", "Y1"], ["write", "x", "X2"]],
     "cz": [["create", "z", "Z1"], ["write", "x", "X1"]],
     "xx": [["write", "x", "X1"], ["write", "x", "X2"]],     # a second notification must restart the ageing clock
+    "rn": [["rename", "x", "z"], ["write", "z", "Z1"]],     # an urgent name renamed to an ordinary one is ordinary afterwards
 }
 BASE = [["create", "x", "x0"], ["create", "y", "y0"]]
 
